@@ -194,6 +194,26 @@ def scale_case(rng, name, nmax=400):
     return {"op": "scale", "tag": f"{name}-{tag}", "in": i}
 
 
+_REGISTERED = {}
+
+
+def _finding_registered(classifier):
+    """open finding P (weighted Savitzky-Golay with a vanishing window weight sum) is listed in known_findings.json:
+    only then are its input shapes generated (they are VIOLATIONs otherwise, by design)"""
+    global _REGISTERED
+    if classifier in _REGISTERED:
+        return _REGISTERED[classifier]
+    import json
+    path = os.path.join(os.path.dirname(os.path.dirname(os.path.dirname(os.path.abspath(__file__)))), "known_findings.json")
+    try:
+        fs = json.load(open(path)).get("findings", [])
+    except Exception:
+        fs = []
+    _REGISTERED[classifier] = any(f.get("property") == "C19" and f.get("status") == "open"
+                                  and f.get("classifier") == classifier for f in fs)
+    return _REGISTERED[classifier]
+
+
 def gen_width(rng, n):
     """(width, malformed, exact)"""
     r = rng.random()
@@ -221,6 +241,8 @@ def smooth_case(rng, name, nmax=400):
         i["n_iter"] = rng.choice([1, 1, 1, 2, 3]) if (n <= 30 and name == "savgol") or n <= 12 else 1
     if name == "savgol_w":
         kind = rng.choice(["equal1", "random", "random", "dominant", "dyadic", "zeros-sparse", "positive-wide"])
+        if kind == "positive-wide" and not _finding_registered("savgol_zero_denominator"):
+            kind = "random"   # weights 16:4:1 cancel against the window's negative lobes now and then (finding P)
         if kind == "zeros-sparse":
             w = [0.0 if rng.random() < 0.1 else rng.uniform(0.1, 1) for _ in range(n)]
         elif kind == "positive-wide":
@@ -262,18 +284,6 @@ def finding_P_cases():
         w[i] = 0.0
     return [{"op": "smooth", "tag": "finding-P", "in": {"name": "savgol_w", "x": x, "w": w, "width": 7, "malformed": False,
                                                         "exact": False, "window_width": 7, "order": 3, "n_iter": 1}}]
-
-
-def _finding_registered(classifier):
-    """open finding P (weighted Savitzky-Golay with a vanishing window weight sum) is listed in known_findings.json:
-    only then are its input shapes generated (they are VIOLATIONs otherwise, by design)"""
-    import json
-    path = os.path.join(os.path.dirname(os.path.dirname(os.path.dirname(os.path.abspath(__file__)))), "known_findings.json")
-    try:
-        fs = json.load(open(path)).get("findings", [])
-    except Exception:
-        return False
-    return any(f.get("property") == "C19" and f.get("status") == "open" and f.get("classifier") == classifier for f in fs)
 
 
 def zero_denominator_cases(rng, k):
